@@ -350,3 +350,97 @@ def job_check(P, tier, seed, monitor, extra_cases=None):
             c.samples.append({"case": case, "impl": impl, "model_outcomes": ms[:3]})
     c.extra["max_model_outcomes_per_history"] = outcomes
     return c
+
+
+# --------------------------------------------------------------------------------------------
+# concurrent senders on a multi-threaded runtime (real time): judged by monitors on the log
+
+def mt_cases(r, n):
+    cases = []
+    for i in range(n):
+        child = dict(r.choice([CHILD_CLASSES[0], CHILD_CLASSES[1], CHILD_CLASSES[4], CHILD_CLASSES[6]]))
+        senders = []
+        for s in range(r.randint(2, 4)):
+            ops = []
+            for k in range(r.randint(2, 7)):
+                name = r.choice(["start", "run", "run", "run", "stop", "restart", "try_restart", "to_wait", "signal", "stop_with_signal", "restart_with_signal"])
+                op = {"op": name}
+                if name == "run":
+                    op["mark"] = s * 100 + k
+                if "signal" in name:
+                    op["sig"] = "Terminate"
+                if name.endswith("with_signal"):
+                    op["grace"] = r.choice([0, 5, 20])
+                if r.random() < 0.4:
+                    op["gap_us"] = r.choice([0, 50, 300, 2000])
+                ops.append(op)
+            senders.append(ops)
+        cases.append({"id": i, "script": {"children": [child]}, "senders": senders, "tail_ms": 250})
+    return cases
+
+
+def mt_check(c, tag, seed, n, monitor):
+    """runs n concurrent-sender cases; monitor(case, o) -> [(clause, detail)]"""
+    r = rng(seed, "mt" + tag)
+    cases = mt_cases(r, n)
+    d = scratch("mt_" + tag)
+    procs = 4
+    chunks = [cases[i::procs] for i in range(procs)]
+    from concurrent.futures import ThreadPoolExecutor
+
+    def one(k):
+        f = os.path.join(d, f"cases_{k}.jsonl")
+        write_jsonl(f, chunks[k])
+        return run_harness("h_job", ["mt", f], timeout=900)
+    out = {}
+    with ThreadPoolExecutor(max_workers=procs) as ex:
+        for k, (rc, objs, txt) in enumerate(ex.map(one, range(procs))):
+            if rc != 0 or len(objs) != len(chunks[k]):
+                c.errors.append(f"h_job mt failed rc={rc}: {txt[-600:]}")
+                return
+            for o in objs:
+                out[o["id"]] = o
+    for case in cases:
+        o = out[case["id"]]
+        c.evaluations += 1
+        c.validated += 1
+        c.count("concurrent-senders(monitor-only)")
+        c.nontrivial.add(json.dumps(case["senders"]))
+        for clause, detail in monitor(case, o):
+            c.failing.append({"case": {"id": case["id"], "script": case["script"], "senders": case["senders"]}, "impl": " ".join(o["log"]), "clause": clause, "detail": detail})
+
+
+def mt_monitor_overlap(case, o):
+    out, live = [], set()
+    for t, ev, a in parse_log(o):
+        if ev == "spawn":
+            if live:
+                out.append(("C04_at_most_one_live: spawn while another child is unreaped (concurrent senders)", f"t={t} live={sorted(live)} new={a[0]}"))
+            live.add(a[0])
+        elif ev == "reap":
+            live.discard(a[0])
+    return out
+
+
+def mt_monitor_tickets(case, o):
+    out = []
+    if o["panicked"] or not o["task_finished"] or not o["delete_resolved"]:
+        out.append(("C07_job_end_releases: the job task did not end cleanly after delete_now", {k: o[k] for k in ("panicked", "task_finished", "delete_resolved")}))
+    for si, ws in enumerate(o["tickets"]):
+        for k, w in enumerate(ws):
+            if w is None:
+                out.append(("C07_no_ticket_lost: a ticket never resolved, not even when the job ended (concurrent senders)", f"sender {si} op {k} {case['senders'][si][k]['op']}"))
+    return out
+
+
+def mt_monitor_order(case, o):
+    out = []
+    marks = [int(a[0]) for t, ev, a in parse_log(o) if ev == "mark"]
+    if len(set(marks)) != len(marks):
+        out.append(("C10_executed_once: a run() control executed twice (concurrent senders)", marks))
+    for si, ops in enumerate(case["senders"]):
+        mine = [m for m in marks if m // 100 == si]
+        sent = [op["mark"] for op in ops if op["op"] == "run"]
+        if mine != sent:
+            out.append(("C10_fifo_within_priority: a sender's run() controls were not executed exactly once in its send order", {"sender": si, "sent": sent, "executed": mine}))
+    return out
